@@ -7,7 +7,8 @@ WORK = os.path.join(VERIF, "work")
 EVIDENCE_DIR = os.path.join(VERIF, "evidence")
 if os.path.realpath(REPO) != "/repo":
     # self-test against a mutated scratch copy: never touch the real build cache or the committed evidence
-    WORK = os.path.join(VERIF, "work", "mut")
+    import hashlib as _h
+    WORK = os.path.join(VERIF, "work", "mut-" + _h.sha256(os.path.realpath(REPO).encode()).hexdigest()[:6])
     EVIDENCE_DIR = os.path.join(WORK, "evidence")
 GENERATOR_VERSION = 1
 
